@@ -7,7 +7,10 @@
     ([emit_each]).  The model has NO panic outcome for an I/O result: after fix 1c94c14 every
     io::Result is either discarded (`let _ =`) or returned (MultiProgress::println / clear);
     docs/C18.md enumerates the sites, harness/src/bin/c18.rs audits them statically and injects
-    a failure at every k dynamically. *)
+    a failure at every k dynamically.  NOT in the model: the steady-tick thread (C08's domain) -
+    "the ticker keeps working after the terminal recovers" is an oracle-only clause (c18.rs,
+    class ticker-dead-after-io-error); the `if panicking() { return Ok(()) }` guards
+    (src/draw_target.rs:519-521, src/multi.rs:282-284) and the move_cursor branch. *)
 From IndModel Require Import Base Text Draw Sys SimSpec.
 From IndProofs Require Import SimProofs SimStructProofs.
 From Coq Require Import List NArith.
@@ -31,7 +34,15 @@ Print Assumptions C18_state_step.
 
 (** C18_reports: a call returns Err exactly when it is MultiProgress::println / clear and one of
     the TermLike calls it made itself (numbers s_calls s .. s_calls s' - 1) failed; every other
-    call returns (): the io::Result of its draw is discarded. *)
+    call returns (): the io::Result of its draw is discarded.
+    FOR EVERY ERROR KIND: the oracle [fails : N -> bool] only says THAT call k fails; the
+    io::ErrorKind is abstracted away because the code never inspects it - `grep -rn
+    "ErrorKind\|\.kind()" /repo/src` is empty; every failure travels through `?` unchanged
+    (src/draw_target.rs:528-614).  That this abstraction is sound for the code at hand is checked
+    on the implementation: c18.rs rotates the injected kind through Interrupted / WouldBlock /
+    BrokenPipe / Other / TimedOut / UnexpectedEof, including runs in which every flush() fails
+    (a code change that treats one kind specially - e.g. retries Interrupted and then gives up
+    with Ok - makes model and implementation disagree and trips the "Err iff" oracle). *)
 Theorem C18_reports : forall W H fails s now o,
   let '(s', e, ok) := step W H fails s now o in
   (ok = false <->
